@@ -1,13 +1,17 @@
 (* C08 - well-formed JSON is recognised, whole or truncated.
-   PARTIAL: proved is completeness in WHOLE mode - every document of Spec/JsonGrammar8259.v (RFC 8259
-   numbers, strings with all escapes, literals, arbitrary white space, arrays and objects; a superset of
-   RFC 8259 texts that are arrays or objects) whose nesting depth is within the recursion cap is accepted by
-   the JSON detector when examined in full - together with the whole/truncated decision and the priority
-   structure the exception clause refers to.  The TRUNCATED case (every cut after the opening bracket) is
-   decided on the implementation: generator-produced documents confirmed by encoding/json, every cut,
-   plus exhaustive agreement implementation = model = grammar judge on all short strings. *)
+   Proved, for every document of Spec/JsonGrammar8259.v (RFC 8259 numbers, strings with all escapes,
+   literals, arbitrary white space, arrays and objects; a superset of the RFC 8259 texts that are arrays
+   or objects) whose nesting depth is within the recursion cap, for every limit:
+     - whole mode (limit 0 or document shorter than the limit): the JSON detector accepts   (C08_whole)
+     - truncated mode: EVERY cut that includes the opening bracket is accepted              (C08_truncated)
+       [scanner completeness + the scanner is online + fuel irrelevance]
+     - both over the header Detect examines                                                 (C08_every_cut)
+     - Detect: the hierarchy of the result contains application/json unless a format consulted earlier
+       (a root child before text/plain, or html, svg, xml, php, js, lua, perl, python) accepts (C08_detect)
+   The tie to the Go scanner is the correspondence (json / jexh / jdeep channels); that generator-produced
+   documents lie inside the grammar is checked against encoding/json.Valid by the harness. *)
 From Verif Require Import Base.Bytes Model.Types Model.Json Model.Detect Gen.TreeData Gen.Tables
-  Spec.JsonGrammar Spec.JsonGrammar8259 Proofs.JsonComplete.
+  Model.Tree Spec.SpecText Spec.JsonGrammar Spec.JsonGrammar8259 Proofs.TreeP Proofs.DetectP Proofs.JsonComplete Proofs.JsonOnline Proofs.JsonTrunc.
 
 Definition text_kids : list string :=
   match nth_error nodes text_id with Some n => map (fun i => match nth_error nodes i with Some c => n_var c | None => ""%string end) (n_children n) | None => [] end.
@@ -80,3 +84,89 @@ Example C08_cut_inside_string : json_family "none"%string (N.lor tok_object tok_
 Proof. vm_compute. reflexivity. Qed.
 Example C08_cut_inside_escape : json_family "none"%string (N.lor tok_object tok_array) (b "{""a"":""\u00") 10 = true.
 Proof. vm_compute. reflexivity. Qed.
+
+(* the scanner is online: a prefix of an input that is scanned to completion is inspected to its last byte
+   (any query table, cap, fuel) *)
+Theorem C08_scanner_online :
+  forall maxrec qs tk fuel p q lvl s s',
+    go maxrec qs tk fuel WAny (p ++ q) lvl s = (Some [], s') ->
+    ib (snd (go maxrec qs tk fuel WAny p lvl s)) = ib s + length p.
+Proof. exact scan_online. Qed.
+Print Assumptions C08_scanner_online.
+
+(* the property, truncated mode: every cut p of a document p ++ q that includes the opening bracket, examined
+   under a limit that does not exceed its length *)
+Theorem C08_truncated :
+  forall maxrec tk want, N.land (tok_of tk 91) want <> 0%N -> N.land (tok_of tk 123) want <> 0%N ->
+  forall d raw p q limit, SDoc d raw -> d <= maxrec -> raw = p ++ q ->
+    looks_like_obj_or_arr p = true -> limit <> 0%N -> (limit <= N.of_nat (length p))%N ->
+    json_helper maxrec tk [] want p limit = true.
+Proof. exact json_complete_trunc. Qed.
+Print Assumptions C08_truncated.
+
+(* whole and truncated together, on the header Detect hands to the detector: any limit that leaves the
+   opening bracket inside the header *)
+Theorem C08_every_cut :
+  forall d raw limit, SDoc d raw -> d <= 4096 ->
+    (limit = 0 \/ N.of_nat (bracket_pos raw) < limit)%N ->
+    json_family "none"%string (N.lor tok_object tok_array) (hdr limit raw) limit = true.
+Proof.
+  intros d raw limit Hd Hle Hl. unfold json_family.
+  change (queries_of "none"%string) with (@nil query).
+  apply (json_complete_every_cut maxrec tokens (N.lor tok_object tok_array)) with (d := d); try assumption; try (vm_compute; discriminate).
+Qed.
+Print Assumptions C08_every_cut.
+
+(* ---- Detect ---- *)
+Definition json_id : nat := id_of_var "json"%string.
+Definition text_tree : tree := last (t_kids tree0) (T 0 []).
+Definition var_of (t : tree) : string := match nth_error nodes (t_id t) with Some n => n_var n | None => ""%string end.
+Fixpoint elders (id : nat) (l : list tree) : list tree :=
+  match l with [] => [] | c :: l' => if Nat.eqb (t_id c) id then [] else c :: elders id l' end.
+Fixpoint find_kid (id : nat) (l : list tree) : option tree :=
+  match l with [] => None | c :: l' => if Nat.eqb (t_id c) id then Some c else find_kid id l' end.
+Fixpoint youngers (id : nat) (l : list tree) : list tree :=
+  match l with [] => [] | c :: l' => if Nat.eqb (t_id c) id then l' else youngers id l' end.
+
+(* regenerated obligation: where json sits *)
+Lemma ob_json_position :
+  exists jt, find_kid json_id (t_kids text_tree) = Some jt /\ t_id jt = json_id /\
+    t_kids tree0 = removelast (t_kids tree0) ++ [text_tree] /\ t_id text_tree = text_id /\
+    t_kids text_tree = elders json_id (t_kids text_tree) ++ jt :: youngers json_id (t_kids text_tree) /\
+    map var_of (elders json_id (t_kids text_tree)) = ["html"; "svg"; "xml"; "php"; "js"; "lua"; "perl"; "python"]%string /\
+    nth_error node_dets json_id = Some (Some (DFunc "JSON"%string)).
+Proof. vm_compute. eexists. repeat split. Qed.
+Print Assumptions ob_json_position.
+
+Lemma verdict_json orc raw lim :
+  verdict orc raw lim json_id = json_family "none"%string (N.lor tok_object tok_array) raw lim.
+Proof.
+  destruct ob_json_position as (_ & _ & _ & _ & _ & _ & _ & Hd).
+  unfold verdict. rewrite Hd. reflexivity.
+Qed.
+Print Assumptions verdict_json.
+
+(* Detect at any limit on any document: unless a format consulted earlier accepts, the reported hierarchy
+   contains application/json - i.e. the result is application/json or one of its sub-types *)
+Theorem C08_detect :
+  forall orc d raw limit, SDoc d raw -> d <= 4096 ->
+    (limit = 0 \/ N.of_nat (bracket_pos raw) < limit)%N ->
+    let acc := verdict orc (hdr limit raw) limit in
+    text_spec (hdr limit raw) = true ->                                       (* no binary data byte in the header *)
+    Forall (fun c => acc (t_id c) = false) (removelast (t_kids tree0)) ->     (* no earlier root format accepts *)
+    Forall (fun c => acc (t_id c) = false) (elders json_id (t_kids text_tree)) ->  (* nor html ... python *)
+    exists rest, detect_path orc limit raw = 0 :: text_id :: json_id :: rest.
+Proof.
+  intros orc d raw limit Hd Hle Hl acc Htext Hroot Htk.
+  destruct ob_json_position as (jt & _ & Hjid & Hsplit0 & Htid & Hsplit1 & _ & _).
+  unfold detect_path. fold acc. rewrite tree0_shape, Hsplit0.
+  assert (Hat : acc (t_id text_tree) = true) by (rewrite Htid; unfold acc; rewrite verdict_text; exact Htext).
+  rewrite walk_eq, (first_kid_skip acc _ text_tree [] Hroot Hat).
+  destruct text_tree as [tn tcs] eqn:Ett. cbn [t_id t_kids] in *. subst tn.
+  rewrite walk_eq, Hsplit1.
+  assert (Haj : acc (t_id jt) = true).
+  { rewrite Hjid. unfold acc. rewrite verdict_json. apply (C08_every_cut d); assumption. }
+  rewrite (first_kid_skip acc _ jt _ Htk Haj).
+  destruct (walk_head acc jt) as [p ->]. rewrite Hjid. eauto.
+Qed.
+Print Assumptions C08_detect.
